@@ -12,10 +12,16 @@
 //!   "expr":  in = [cid, k, den, expr]; expr = [0] create | [1, e, v] add_input | [2, l, r] merge
 //!            | [3, vs] build_from_group | [4, vs] create + add_input each; out = finish outcome.
 //!            cid 8 = KMVApproxDistinctCount::new(k): out = [finish of expr, finish of the fold].
+//!   "fsweep": non-finite floats.  in = [codes, maxparts]; a value code is 100 = NaN, 101 = +inf,
+//!            102 = -inf, 103 = -0.0, any other c = the finite double c/2 (0 = +0.0).  One RLE row
+//!            (same tree enumeration as "sweep") for each of AverageF64 over f64, Sum<f64>,
+//!            Min<OrdF64>, Max<OrdF64>.  A float outcome is its CLASS "nan" | "pinf" | "ninf", or
+//!            {"f": hex bits} when finite (null = finish panicked).
 //! outcome: integer | null (finish panicked) | {"f": hex} | sorted int array (DistinctSet) |
 //!          int array as returned (TopK).  AverageF64 values are v/den (den a power of two).
 use ibv::{Emitter, SplitMix64, Tier, drive};
 use ironbeam::collection::{CombineFn, Count, LiftableCombiner};
+use ironbeam::utils::OrdF64;
 use ironbeam::combiners::{
     AverageF64, DistinctCount, DistinctSet, KMVApproxDistinctCount, Max, Min, Sum, TopK,
 };
@@ -37,6 +43,35 @@ fn hexf(x: f64) -> Value {
         format!("0x1.{man:013x}p{}{}", if e < 0 { "-" } else { "+" }, e.abs())
     };
     json!({"f": if neg { format!("(-{body})") } else { body }})
+}
+
+/// structural rendering of a float outcome: class, and the exact bits only when finite
+fn enc_fclass(x: f64) -> Value {
+    if x.is_nan() {
+        json!("nan")
+    } else if x == f64::INFINITY {
+        json!("pinf")
+    } else if x == f64::NEG_INFINITY {
+        json!("ninf")
+    } else {
+        hexf(x)
+    }
+}
+fn enc_ordf(x: OrdF64) -> Value {
+    enc_fclass(x.0)
+}
+/// value code -> f64 (see the module doc)
+fn code_f64(c: i64) -> f64 {
+    match c {
+        100 => f64::NAN,
+        101 => f64::INFINITY,
+        102 => f64::NEG_INFINITY,
+        103 => -0.0,
+        _ => (c as f64) / 2.0,
+    }
+}
+fn code_ordf(c: i64) -> OrdF64 {
+    OrdF64(code_f64(c))
 }
 
 fn ints(v: &Value) -> Vec<i64> {
@@ -352,6 +387,10 @@ mod mutants {
     }
     impl LiftableCombiner<f64, (f64, u64), f64> for MAvg {
         fn build_from_group(&self, values: &[f64]) -> (f64, u64) {
+            if self.0 == "avg_build_skip_nonfinite" {
+                let kept: Vec<f64> = values.iter().copied().filter(|v| v.is_finite()).collect();
+                return (kept.iter().sum(), kept.len() as u64);
+            }
             (values.iter().sum(), values.len() as u64)
         }
     }
@@ -480,6 +519,26 @@ fn run(kind: &str, input: &Value) -> Value {
                 rows.push(with_combiner!(7, k, den, sweep_row, &all));
             }
             Value::Array(rows)
+        }
+        "fsweep" => {
+            let codes = ints(&input[0]);
+            let maxparts = input[1].as_u64().unwrap() as usize;
+            let mut all: Vec<Vec<Vec<i64>>> = Vec::new();
+            for p in 1..=maxparts {
+                all.extend(splits(p, &codes));
+            }
+            let m = mutant();
+            let avg = if m.starts_with("avg_") {
+                sweep_row(&mutants::MAvg(m), &all, &code_f64, &enc_fclass)
+            } else {
+                sweep_row(&AverageF64, &all, &code_f64, &enc_fclass)
+            };
+            json!([
+                avg,
+                sweep_row(&Sum::<f64>::new(), &all, &code_f64, &enc_fclass),
+                sweep_row(&Min::<OrdF64>::new(), &all, &code_ordf, &enc_ordf),
+                sweep_row(&Max::<OrdF64>::new(), &all, &code_ordf, &enc_ordf),
+            ])
         }
         "expr" => {
             let cid = input[0].as_i64().unwrap();
@@ -668,6 +727,33 @@ fn generate(seed: u64, tier: Tier, em: &mut Emitter) {
     for s in all_seqs(&[-3, 1, 2], 3) {
         let nt = s.len() >= 2;
         queue.push(("sweep", json!([s, 3, 4]), nt, vec!["exhaustive", "quarters"]));
+    }
+
+    // 2b. non-finite floats: every sequence of length <= 3 (thorough: 4) over
+    //     {NaN, +inf, -inf, -0.0, +0.0, 1.5, -2.5}, every split into 1..4 parts, 3 leaf modes, both
+    //     merge orders; plus seeded longer sequences (3 parts)
+    let fdom = [100i64, 101, 102, 103, 0, 3, -5];
+    for s in all_seqs(&fdom, if tier == Tier::Thorough { 4 } else { 3 }) {
+        let nt = s.len() >= 2 && s.iter().any(|c| (100..=102).contains(c));
+        queue.push(("fsweep", json!([s, 4]), nt, vec!["exhaustive", "nonfinite"]));
+    }
+    {
+        let mut frng = SplitMix64::new(seed ^ 0xF10A7);
+        let nrand = if tier == Tier::Thorough { 1500 } else { 150 };
+        for _ in 0..nrand {
+            let len = 4 + frng.below(6) as usize;
+            let s: Vec<i64> = (0..len)
+                .map(|_| match frng.below(10) {
+                    0 => 100,
+                    1 | 2 => 101,
+                    3 => 102,
+                    4 => 103,
+                    _ => frng.range(-40, 40),
+                })
+                .collect();
+            let nt = s.iter().any(|c| (100..=102).contains(c));
+            queue.push(("fsweep", json!([s, 3]), nt, vec!["random", "nonfinite"]));
+        }
     }
 
     // 3. random longer accumulator expressions
